@@ -55,6 +55,11 @@ def rnd_mesh(rng):
         f = [[0, 1, 2], [0, 3, 1]]
     s = rng.uniform(0.5, 2.0)
     v = [[float(a) * s for a in p] for p in v]
+    if rng.random() < 0.3:
+        # a face without a normal (three collinear vertices): judged by its vertices alone unless an angle is asked for
+        a, b = rng.sample(range(len(v)), 2)
+        v.append([(x + y) / 2 for x, y in zip(v[a], v[b])])
+        f = [list(t) for t in f] + [[a, b, len(v) - 1]]
     return v, f
 
 
